@@ -64,8 +64,8 @@ theorem one_flow_per_key (a i : Nat) (ops : List Op) :
 theorem throughput_wraps : thrOf (2 ^ 62) 0 2 1 = 0 ∧ thrOf (2 ^ 61 - 1) 0 2 1 = 8 * (2 ^ 61 - 1) := by decide
 
 /-! ## Non-vacuity: a contract-respecting correlated history with a reset -/
-def cS : List CorrV := [.str [1], .str [], .str [], .str [], .str [], .str [], .ip4 [0,0,0,0], .num 0, .num 0, .num 0, .num 0]
-def cD : List CorrV := [.str [], .str [], .str [], .str [2], .str [], .str [], .ip4 [0,0,0,0], .num 0, .num 0, .num 0, .num 0]
+def cS : List CorrV := [.str [1], .str [], .str [], .str [], .str [], .str [], .ip4 [0,0,0,0], .num 0, .num 0, .num 0, .num 0, .ip6 zero16]
+def cD : List CorrV := [.str [], .str [], .str [], .str [2], .str [], .str [], .ip4 [0,0,0,0], .num 0, .num 0, .num 0, .num 0, .ip6 zero16]
 def rec (c : List CorrV) (e : Nat) (st : List Nat) : InRec :=
   { key := 1, flowType := 2, corr := c, start := 100, end_ := e, endReason := 2, tcpState := [], stats := st }
 def hist : List Ev :=
